@@ -65,19 +65,19 @@ class Shards:
         self.paths.append(path)
         self._reset()
 
-def validate(paths, jvms=8, workers=2, scratch=None, timeout=3600):
+def validate(paths, jvms=8, workers=2, scratch=None, timeout=3600, module="Trace"):
     """validate shards with TLC, several JVMs in parallel. Returns (verdicts, stats)"""
     verdicts = []
     stats = {"generated": 0, "distinct": 0, "tlc_runs": 0, "tlc_wall_s": 0.0}
     t0 = time.time()
     with cf.ThreadPoolExecutor(max_workers=jvms) as ex:
-        futs = {ex.submit(tlc.validate_shard, p, workers, timeout, scratch): p for p in paths}
+        futs = {ex.submit(tlc.validate_shard, p, workers, timeout, scratch, 25, module): p for p in paths}
         for fu in cf.as_completed(futs):
             vs, st = fu.result()
             p = futs[fu]
             with open(p) as f:
                 txt = f.read()
-                ncases = txt.count('"events":') + txt.count('"clause":')
+                ncases = txt.count('"events":') + (txt.count('"clause":') if module == "Trace" else 0)
             if len(vs) != ncases:
                 raise tlc.MachineryError("shard %s: %d cases but %d verdicts" % (p, ncases, len(vs)))
             verdicts.extend(vs)
